@@ -334,3 +334,102 @@ theorem step8_spec (wl : Bool) (d : Nat) (ss : List α) (l : List Nat) (bsL : Li
   rw [f3 hw, ev, (hviews hw).2.1]
 
 end TlxVerif.C03
+
+namespace TlxVerif.C03
+
+variable {α : Type} (str : α → Str)
+
+/-- what the radix sorts need from multikey quicksort (proved in `C03Mkqs`) -/
+def MkqsOk (c : Consts) (wl : Bool) : Prop :=
+  ∀ d ss l mem, Pre str wl d ss l → SortSpec str wl ss l (multikeyQuicksort str c wl d ss l mem)
+
+theorem key8_lt_256 (s : Str) (d : Nat) : key8 s d < 256 := by
+  simp only [key8]; exact UInt8.toNat_lt _
+
+theorem empty_of_short (wl : Bool) (d : Nat) (ss : List α) (l : List Nat) (hpre : Pre str wl d ss l)
+    (h : ∀ x ∈ ss, (str x).length < d) : ss = [] := by
+  cases ss with
+  | nil => rfl
+  | cons x xs =>
+    have h1 := hpre.1 x (by simp) x (by simp)
+    rw [lcp_self] at h1
+    have := h x (by simp)
+    omega
+
+/-- `radixsort_CE0_loop` / `radixsort_CE2_loop`: correct for every input, every memory limit,
+every stack level -/
+theorem ce8Loop_spec (c : Consts) (wl : Bool) (step : Nat) (hM : MkqsOk str c wl) :
+    ∀ fuel ss l d level mem, (∀ x ∈ ss, (str x).length < d + fuel) → Pre str wl d ss l →
+      SortSpec str wl ss l (ce8Loop str c wl step fuel ss l d level mem) := by
+  intro fuel
+  induction fuel with
+  | zero =>
+    intro ss l d level mem hlen hpre
+    have := empty_of_short str wl d ss l hpre (by simpa using hlen)
+    subst this
+    simp only [ce8Loop]
+    exact sortSpec_id_small str wl [] l (by simp) hpre.2.2
+  | succ fuel ih =>
+    intro ss l d level mem hlen hpre
+    simp only [ce8Loop]
+    have hmem := buckets_mem 256 (fun x => key8 (str x) d) ss
+    apply step8_spec str wl d ss l _ _
+      (buckets_perm 256 _ ss (fun x _ => key8_lt_256 _ _))
+      (by
+        intro e
+        have := congrArg List.length e
+        rw [Array.length_toList, buckets_size] at this
+        simp at this)
+      (fun j b hb y hy => (hmem j b hb y hy).2)
+      hpre
+      (by intro b v; simp)
+    intro j b v hj hb hpb
+    have hj0 : ¬ j = 0 := by omega
+    simp only [hj0, if_false]
+    split
+    · rename_i h0
+      exact sortSpec_id_small str wl b v (by omega) hpb.2.2
+    · split
+      · exact insertionSort_spec str wl (d + 1) b v hpb
+      · split
+        · exact hM (d + 1) b v _ hpb
+        · apply ih b v (d + 1) (level + 1) mem _ hpb
+          intro x hx
+          have := hlen x (hmem j b hb x hx).1
+          omega
+
+theorem le_foldl_max (l : List Nat) (init x : Nat) (h : x ∈ l ∨ x ≤ init) : x ≤ l.foldl max init := by
+  induction l generalizing init with
+  | nil =>
+    rcases h with h | h
+    · simp at h
+    · simpa using h
+  | cons a as ih =>
+    simp only [List.foldl_cons]
+    apply ih
+    rcases h with h | h
+    · rcases List.mem_cons.mp h with e | h
+      · right; subst e; exact Nat.le_max_right _ _
+      · left; exact h
+    · right; exact Nat.le_trans h (Nat.le_max_left _ _)
+
+theorem radixFuel_enough (ss : List α) (d : Nat) : ∀ x ∈ ss, (str x).length < d + radixFuel str ss := by
+  intro x hx
+  unfold radixFuel
+  have := le_foldl_max (ss.map fun x => (str x).length) 0 (str x).length
+    (Or.inl (List.mem_map.mpr ⟨x, hx, rfl⟩))
+  omega
+
+/-- `radixsort_CE0` (all three branches) -/
+theorem radixsortCE0_spec (c : Consts) (wl : Bool) (hM : MkqsOk str c wl)
+    (d : Nat) (ss : List α) (l : List Nat) (mem : Nat) (hpre : Pre str wl d ss l) :
+    SortSpec str wl ss l (radixsortCE0 str c wl d ss l mem) := by
+  unfold radixsortCE0
+  split
+  · exact insertionSort_spec str wl d ss l hpre
+  · simp only
+    split
+    · exact hM d ss l mem hpre
+    · exact ce8Loop_spec str c wl _ hM _ ss l d 1 _ (radixFuel_enough str ss d) hpre
+
+end TlxVerif.C03
